@@ -113,6 +113,20 @@ def run(tier, seed, t0):
                 sims.append(steps[-1][1]["c"])
             os.remove(path)
         n_table = tket_table_check(work)
+        # the whole 1/8 grid over more than two periods, negative phases included, plain and daggered, for every
+        # rotation kind (special values - zero, quarter, half and full turns - are where shortcuts go wrong)
+        G0 = lambda k, ph, dg: {"k": k, "ph": ph, "bits": [], "dg": dg, "sub": "", "subdg": 0, "re": 0, "im": 0, "s": 0}
+        grid = []
+        for ph in range(-9, 26):
+            for k in ("Rx", "Ry", "Rz", "CU1", "CRz", "CRx"):
+                for dg in (0, 1):
+                    n = 1 if k in ("Rx", "Ry", "Rz") else 2
+                    grid.append({"dom": n, "layers": [{"g": G0(k, ph, dg), "off": 0}]})
+            grid.append({"dom": 2, "layers": [{"g": dict(G0("Ctrl", ph, 0), sub="Rz"), "off": 0}]})
+            grid.append({"dom": 2, "layers": [{"g": dict(G0("Ctrl", ph, 0), sub="Rz", subdg=1), "off": 0}]})
+        if tier == "quick":
+            grid = [x for k, x in enumerate(grid) if -4 <= x["layers"][0]["g"]["ph"] <= 17]
+        sample = sample + grid
         rows = [{"kind": "circuit", "c": x, "a": 0, "b": 0, "n": 0} for x in sample + sims]
         obs = [observe(x) for x in sample + sims]
         # rewirings: op on qubits (a, b) of n qubits
